@@ -2,9 +2,23 @@
 
 package keystore
 
-import "sync/atomic"
+import (
+	"sync/atomic"
+
+	"gitlab.com/aquachain/aquachain/common"
+)
 
 // VerifSignCount counts signatures produced with keystore keys (verification harness only).
 var VerifSignCount uint64
 
 func verifSigned(site int) { atomic.AddUint64(&VerifSignCount, 1) }
+
+// verifExpireHook, when set, is called by expire after its timer fired and before it takes the mutex
+// (verification harness only: a blocking hook lets a test decide when the expiry takes effect).
+var verifExpireHook func(addr common.Address, u *unlocked)
+
+func verifExpire(addr common.Address, u *unlocked) {
+	if h := verifExpireHook; h != nil {
+		h(addr, u)
+	}
+}
